@@ -342,9 +342,57 @@ fn tiny_total() -> u64 {
     TINY_GEOMS.iter().map(|(w, h)| 3u64.pow((w * h) as u32)).sum()
 }
 
+/// The very first 16 bpp conversions of the process, made by sixteen threads at the same moment (a worker pool painting
+/// the rectangles of one update, two sessions in one process): whatever the decoder sets up on first use must be ready
+/// for every one of them. Runs before anything else in the process has decoded a bitmap.
+fn concurrent_first_use(rep: &mut Report) {
+    use rdp::core::event::BitmapEvent;
+    use std::sync::{Arc, Barrier};
+    let n = 16usize;
+    let barrier = Arc::new(Barrier::new(n));
+    let handles: Vec<_> = (0..n)
+        .map(|t| {
+            let b = barrier.clone();
+            std::thread::spawn(move || {
+                let colours: Vec<u16> = vec![0xffff, 0xf800, 0x07e0, 0x001f, 0x8410, 0xfffe, 0x0000, (t as u16).wrapping_mul(4097) | 0x8000];
+                let data: Vec<u8> = colours.iter().flat_map(|c| c.to_le_bytes().to_vec()).collect();
+                let ev = BitmapEvent { dest_left: 0, dest_top: 0, dest_right: 7, dest_bottom: 0, width: 8, height: 1, bpp: 16, is_compress: false, data };
+                b.wait();
+                (colours, ev.decompress().map_err(|e| format!("{:?}", e)))
+            })
+        })
+        .collect();
+    for (t, h) in handles.into_iter().enumerate() {
+        rep.eval();
+        match h.join() {
+            Err(_) => rep.violation("C09/concurrent-first-use/panic".into(), format!("thread {} of 16 decoding at the same moment panicked", t), json!({"class": "concurrent-first-use"})),
+            Ok((_, Err(e))) => rep.violation("C09/concurrent-first-use/rejected".into(), format!("thread {}: {}", t, e), json!({"class": "concurrent-first-use"})),
+            Ok((colours, Ok(got))) => {
+                let want: Vec<u8> = refrle::expand565_image(&colours);
+                if got != want {
+                    let pos = got.iter().zip(want.iter()).position(|(a, b)| a != b).unwrap_or(0);
+                    rep.violation(
+                        "C09/concurrent-first-use/pixel-mismatch".into(),
+                        format!("thread {} of 16 making the first conversions of the process at the same moment: byte {} is {:02x}, expected {:02x} (pixel {:#06x})", t, pos, got.get(pos).cloned().unwrap_or(0), want.get(pos).cloned().unwrap_or(0), colours[(pos / 4).min(7)]),
+                        json!({"class": "concurrent-first-use"}),
+                    );
+                } else {
+                    rep.hist("concurrent-first-use-exact");
+                }
+                rep.nontrivial(0xC09_F1 ^ t as u64);
+            }
+        }
+    }
+}
+
 pub fn run(cfg: &Cfg) -> Report {
     let seed = cfg.seed;
     let mut total = Report::new();
+    if cfg.only_class.is_none() {
+        let mut rep = Report::new();
+        concurrent_first_use(&mut rep);
+        total.merge(rep);
+    }
 
     // class 0: all 65536 colour values, exhaustively, through a 256x256 colour image and raw 16 bpp
     {
@@ -498,6 +546,10 @@ fn dims(r: &mut Rng, maxdim: usize) -> (usize, usize) {
 
 pub fn replay(_cfg: &Cfg, v: &Value) -> Report {
     let mut rep = Report::new();
+    if v["class"] == "concurrent-first-use" {
+        concurrent_first_use(&mut rep);
+        return rep;
+    }
     mon::set_quiet(false);
     let codec: &'static str = match v["codec"].as_str().unwrap_or("") {
         "rle16" => "rle16",
